@@ -13,6 +13,7 @@ REGISTRY = {
     'C08': ('checks.streams', 'c08'),
     'C10': ('checks.tee', 'c10'),
     'C16': ('checks.streams', 'c16'),
+    'C17': ('checks.iterqueue', 'c17'),
 }
 
 
